@@ -87,6 +87,7 @@ class LocationAction(object):
         self.__lock = threading.Lock()
         self.__action_type = action_type
         self.__location: Optional['Location'] = None
+        self.__tracepoint: Optional[TracePointConfig] = None
 
     @property
     def id(self) -> str:
@@ -146,6 +147,9 @@ class LocationAction(object):
     @property
     def tracepoint(self) -> TracePointConfig:
         """Get the tracepoint config for this trigger."""
+        if self.__tracepoint is not None:
+            # the tracepoint as it was given to us
+            return self.__tracepoint
         args = dict(self.__config)
         if WATCHES in args:
             del args[WATCHES]
@@ -233,6 +237,19 @@ class LocationAction(object):
         if self.__id == __value.__id and self.__condition == __value.__condition and self.__config == __value.__config:
             return True
         return False
+
+    def with_tracepoint(self, tracepoint: TracePointConfig) -> 'LocationAction':
+        """
+        Attach the tracepoint this action was built from.
+
+        The config of an action holds only what the action needs; a snapshot names its tracepoint with everything
+        it was given (condition, method name, stage, line ...).
+
+        :param tracepoint: the tracepoint as it was given to us
+        :return: self
+        """
+        self.__tracepoint = tracepoint
+        return self
 
     def with_location(self, location: 'Location') -> 'LocationAction':
         """
@@ -697,5 +714,8 @@ def build_trigger(tp_id: str, path: str, line_no: int, args: Dict[str, str], wat
 
     actions = [action for action in [snap_action, log_action, metric_action, span_action] if
                action is not None]
+    tracepoint = TracePointConfig(tp_id, path, line_no, dict(args), list(watches), metrics)
+    for action in actions:
+        action.with_tracepoint(tracepoint)
 
     return Trigger(location, actions)
